@@ -1,7 +1,57 @@
-(* C11 property theorems only (temporary bootstrap) *)
-From Coq Require Import ZArith List Bool.
-Require Import MV.C11.Ext MV.C11.Gen MV.C11.Model.
+(* C11 property theorems only: each closed by `exact <lemma>` with Print Assumptions beneath.
+   Vocabulary: `build P dim mls oracle` is KDTree.__init__ on the point list P (all of dimension dim), with
+   max_leaf_size = mls and `oracle s` = what _find_pivot returns at the s-th split (any strategy, any random draw);
+   `query` / `query_radius` are the two searches on the resulting node array; squared distances throughout.
+   Non-vacuity examples (concrete inputs meeting the hypotheses, incl. the two repaired witnesses) are in Proofs.v. *)
+From Coq Require Import ZArith List Bool Permutation Sorting.Sorted.
+Require Import MV.C11.Ext MV.C11.Gen MV.C11.Model MV.C11.ProofsGen MV.C11.ProofsBuild MV.C11.Proofs.
+Close Scope Z_scope.
+Open Scope nat_scope.
 
-Theorem C11_bootstrap : forall P mls, build P 1 mls (fun _ => 0%Z) = build P 1 mls (fun _ => 0%Z).
-Proof. reflexivity. Qed.
-Print Assumptions C11_bootstrap.
+(* building finishes: for every point list and every pivot oracle the loop needs at most 2n+1 iterations *)
+Theorem C11_build_terminates :
+  forall (P : list (list Z)) (dim mls : nat) (oracle : nat -> Z),
+    1 <= dim -> 1 <= mls ->
+    exists nodes, build P dim mls oracle = Ok nodes /\ length nodes <= fuel_bound P.
+Proof. exact terminates. Qed.
+Print Assumptions C11_build_terminates.
+
+(* every input point is stored in exactly one leaf, and lies in that leaf's box *)
+Theorem C11_partition :
+  forall (P : list (list Z)) (dim mls : nat) (oracle : nat -> Z),
+    1 <= dim -> 1 <= mls -> points_wf dim P ->
+    forall nodes, build P dim mls oracle = Ok nodes ->
+      Permutation (leaves nodes) (seq 0 (length P)) /\
+      NoDup (leaves nodes) /\ (forall j, In j (leaves nodes) <-> j < length P) /\
+      (forall i ax lp bb, nth_error nodes i = Some (Leaf ax lp bb) -> forall j, In j lp -> inbox bb (pt P j)).
+Proof. exact partition. Qed.
+Print Assumptions C11_partition.
+
+(* AABB.distance never exceeds the distance to a point of the box (what both prunings rely on) *)
+Theorem C11_box_distance_lower_bound :
+  forall (b : box) (p q : list Z), inbox b p -> ele (boxdist2 b q) (Fin (dist2 p q)).
+Proof. exact box_distance_lower_bound. Qed.
+Print Assumptions C11_box_distance_lower_bound.
+
+(* query returns min(k,n) distinct indices, in non-decreasing distance, none farther than any index left out *)
+Theorem C11_knn_exact :
+  forall (P : list (list Z)) (dim mls : nat) (oracle : nat -> Z),
+    1 <= dim -> 1 <= mls -> points_wf dim P ->
+    forall nodes (q : list Z) (k : nat), build P dim mls oracle = Ok nodes ->
+      exists res, query P nodes q k = Ok res /\
+        length res = Nat.min k (length P) /\
+        NoDup res /\ (forall i, In i res -> i < length P) /\
+        StronglySorted (fun a b => (sqdist P q a <= sqdist P q b)%Z) res /\
+        (forall i j, In i res -> j < length P -> ~ In j res -> (sqdist P q i <= sqdist P q j)%Z).
+Proof. exact knn_exact. Qed.
+Print Assumptions C11_knn_exact.
+
+(* query_radius returns exactly the indices within the radius, each once *)
+Theorem C11_radius_exact :
+  forall (P : list (list Z)) (dim mls : nat) (oracle : nat -> Z),
+    1 <= dim -> 1 <= mls -> points_wf dim P ->
+    forall nodes (q : list Z) (r2 : Z), build P dim mls oracle = Ok nodes ->
+      exists res, query_radius P nodes q r2 = Ok res /\ NoDup res /\
+        (forall j, In j res <-> (j < length P /\ (sqdist P q j <= r2)%Z)).
+Proof. exact radius_exact. Qed.
+Print Assumptions C11_radius_exact.
